@@ -133,6 +133,8 @@ func (pr *Program) RunAnalyses(prop string) []*Obligation {
 		return pr.AnalysisC15ClosureFrames()
 	case "C16":
 		return pr.AnalysisC16()
+	case "C20":
+		return pr.AnalysisC20(pr.C20Derived)
 	}
 	return nil
 }
@@ -574,4 +576,277 @@ func (pr *Program) reachableFromEntryPoints() map[*FuncInfo]bool {
 	}
 	pr.reach = reach
 	return reach
+}
+
+// ---------- C20: genesis export / import completeness ----------
+
+// prefixVarsOf returns the package-level []byte key-prefix variables (and string key constants used through KeyPrefix)
+// referenced by an expression, following key-constructor functions of the module's types package.
+func (pr *Program) prefixVarsOf(e ast.Node, info *types.Info, seen map[*FuncInfo]bool, out map[string]bool) {
+	if pr.visitingInit == nil {
+		pr.visitingInit = map[ast.Expr]bool{}
+	}
+	ast.Inspect(e, func(n ast.Node) bool {
+		switch n := n.(type) {
+		case *ast.Ident:
+			pr.notePrefixObj(info.Uses[n], out)
+			// local variable: follow its initialiser(s)
+			if v, ok := info.Uses[n].(*types.Var); ok && v.Pkg() != nil && v.Parent() != v.Pkg().Scope() {
+				for _, init := range pr.localInits(v, info) {
+					if !pr.visitingInit[init] {
+						pr.visitingInit[init] = true
+						pr.prefixVarsOf(init, info, seen, out)
+						delete(pr.visitingInit, init)
+					}
+				}
+			}
+		case *ast.SelectorExpr:
+			if info.Selections[n] == nil {
+				pr.notePrefixObj(info.Uses[n.Sel], out)
+			}
+		case *ast.CallExpr:
+			var obj types.Object
+			switch f := unparen(n.Fun).(type) {
+			case *ast.Ident:
+				obj = info.Uses[f]
+			case *ast.SelectorExpr:
+				if info.Selections[f] == nil {
+					obj = info.Uses[f.Sel]
+				}
+			}
+			if fn, ok := obj.(*types.Func); ok {
+				if fi := pr.Funcs[fn]; fi != nil && !seen[fi] && fi.Decl.Body != nil && returnsBytes(fn) {
+					seen[fi] = true
+					pr.prefixVarsOf(fi.Decl.Body, fi.Pkg.P.TypesInfo, seen, out)
+				}
+			}
+		}
+		return true
+	})
+}
+
+func returnsBytes(fn *types.Func) bool {
+	sig := fn.Type().(*types.Signature)
+	if sig.Results().Len() != 1 {
+		return false
+	}
+	if sl, ok := sig.Results().At(0).Type().Underlying().(*types.Slice); ok {
+		if b, ok := sl.Elem().Underlying().(*types.Basic); ok && b.Kind() == types.Uint8 {
+			return true
+		}
+	}
+	return false
+}
+
+func (pr *Program) notePrefixObj(o types.Object, out map[string]bool) {
+	switch v := o.(type) {
+	case *types.Var:
+		if v.Pkg() == nil || v.Parent() != v.Pkg().Scope() {
+			return
+		}
+		if sl, ok := v.Type().Underlying().(*types.Slice); ok {
+			if b, ok := sl.Elem().Underlying().(*types.Basic); ok && b.Kind() == types.Uint8 {
+				out[v.Name()] = true
+			}
+		}
+	case *types.Const:
+		if v.Pkg() != nil && v.Parent() == v.Pkg().Scope() && isString(v.Type()) && (strings.HasSuffix(v.Name(), "Key") || strings.HasSuffix(v.Name(), "Prefix")) {
+			out[v.Name()] = true
+		}
+	}
+}
+
+type storeUse struct {
+	reads  map[string]bool
+	writes map[string]bool
+}
+
+// storeUseOf computes, transitively through functions of the same module, the key prefixes read and written.
+func (pr *Program) storeUseOf(fi *FuncInfo, modPath string, memo map[*FuncInfo]*storeUse, stack map[*FuncInfo]bool) *storeUse {
+	if u, ok := memo[fi]; ok {
+		return u
+	}
+	u := &storeUse{reads: map[string]bool{}, writes: map[string]bool{}}
+	if stack[fi] || fi.Decl.Body == nil {
+		return u
+	}
+	stack[fi] = true
+	defer delete(stack, fi)
+	info := fi.Pkg.P.TypesInfo
+	ast.Inspect(fi.Decl.Body, func(n ast.Node) bool {
+		call, ok := n.(*ast.CallExpr)
+		if !ok {
+			return true
+		}
+		var obj types.Object
+		switch f := unparen(call.Fun).(type) {
+		case *ast.Ident:
+			obj = info.Uses[f]
+		case *ast.SelectorExpr:
+			if sel := info.Selections[f]; sel != nil {
+				obj = sel.Obj()
+			} else {
+				obj = info.Uses[f.Sel]
+			}
+		}
+		fn, ok := obj.(*types.Func)
+		if !ok {
+			return true
+		}
+		name := fn.Name()
+		sig := fn.Type().(*types.Signature)
+		isStore := false
+		if sig.Recv() != nil {
+			rp := namedPath(sig.Recv().Type())
+			if strings.HasSuffix(rp, ".KVStore") || strings.HasSuffix(rp, ".BasicKVStore") || strings.HasSuffix(rp, "prefix.Store") {
+				isStore = true
+			}
+		}
+		switch {
+		case isStore && (name == "Set" || name == "Delete") && len(call.Args) >= 1:
+			pr.prefixVarsOf(call.Args[0], info, map[*FuncInfo]bool{}, u.writes)
+		case isStore && (name == "Get" || name == "Has") && len(call.Args) >= 1:
+			pr.prefixVarsOf(call.Args[0], info, map[*FuncInfo]bool{}, u.reads)
+		case (name == "KVStorePrefixIterator" || name == "KVStoreReversePrefixIterator") && len(call.Args) == 2:
+			pr.prefixVarsOf(call.Args[1], info, map[*FuncInfo]bool{}, u.reads)
+		case name == "NewStore" && strings.HasSuffix(fn.Pkg().Path(), "store/prefix") && len(call.Args) == 2:
+			// prefix store: count both (the sub-store is then iterated or written)
+			pr.prefixVarsOf(call.Args[1], info, map[*FuncInfo]bool{}, u.reads)
+			pr.prefixVarsOf(call.Args[1], info, map[*FuncInfo]bool{}, u.writes)
+		}
+		if callee := pr.Funcs[fn]; callee != nil && strings.HasPrefix(callee.Pkg.Path, modPath) {
+			cu := pr.storeUseOf(callee, modPath, memo, stack)
+			for k := range cu.reads {
+				u.reads[k] = true
+			}
+			for k := range cu.writes {
+				u.writes[k] = true
+			}
+		}
+		return true
+	})
+	if len(stack) == 1 {
+		memo[fi] = u
+	}
+	return u
+}
+
+// AnalysisC20: per module, every key prefix written by the module is read by ExportGenesis and written by InitGenesis.
+func (pr *Program) AnalysisC20(derived map[string]string) []*Obligation {
+	var out []*Obligation
+	mods := []string{"vault", "locker", "lend", "collector", "liquidation", "liquidationsV2", "auction", "auctionsV2", "rewards", "liquidity", "market", "asset", "esm", "tokenmint", "bandoracle"}
+	for _, m := range mods {
+		modPath := ""
+		for p := range pr.Pkgs {
+			if strings.HasSuffix(p, "/x/"+m) {
+				modPath = p
+			}
+		}
+		if modPath == "" {
+			continue
+		}
+		memo := map[*FuncInfo]*storeUse{}
+		written := map[string]bool{}
+		var export, initg *FuncInfo
+		for _, fi := range pr.Funcs {
+			if !strings.HasPrefix(fi.Pkg.Path, modPath) || strings.Contains(fi.Pkg.Path, "/client") || strings.Contains(fi.Pkg.Path, "/simulation") {
+				continue
+			}
+			if fi.Pkg.Path != modPath && fi.Pkg.Path != modPath+"/keeper" {
+				continue
+			}
+			fname := pr.Fset.Position(fi.Decl.Pos()).Filename
+			if strings.HasSuffix(fname, "_test.go") {
+				continue
+			}
+			u := pr.storeUseOf(fi, modPath, memo, map[*FuncInfo]bool{})
+			switch fi.Obj.Name() {
+			case "ExportGenesis":
+				if export == nil || fi.Pkg.Path == modPath {
+					export = fi
+				}
+			case "InitGenesis":
+				if initg == nil || fi.Pkg.Path == modPath {
+					initg = fi
+				}
+			default:
+				for k := range u.writes {
+					written[k] = true
+				}
+			}
+		}
+		if export == nil || initg == nil {
+			out = append(out, staticObl("x/"+m+"/genesis#c20-functions", "C20", "frame", false, "x/"+m, "module has no ExportGenesis/InitGenesis function"))
+			continue
+		}
+		eu := pr.storeUseOf(export, modPath, memo, map[*FuncInfo]bool{})
+		iu := pr.storeUseOf(initg, modPath, memo, map[*FuncInfo]bool{})
+		var ks []string
+		for k := range written {
+			ks = append(ks, k)
+		}
+		sort.Strings(ks)
+		for _, k := range ks {
+			if why, ok := derived[m+"."+k]; ok {
+				out = append(out, staticObl(fmt.Sprintf("x/%s/export-covers#%s", m, k), "C20", "frame", true, "x/"+m, "declared derived: "+why))
+				continue
+			}
+			okE := eu.reads[k]
+			srcE := "store family " + k + " is read by ExportGenesis"
+			if !okE {
+				srcE = "store family " + k + " is written by the module but never read by ExportGenesis: its content is lost by an export/import round trip"
+			}
+			out = append(out, staticObl(fmt.Sprintf("x/%s/export-covers#%s", m, k), "C20", "frame", okE, "x/"+m, srcE))
+			okI := iu.writes[k]
+			srcI := "store family " + k + " is written by InitGenesis"
+			if !okI {
+				srcI = "store family " + k + " is never written by InitGenesis: it starts empty after import"
+			}
+			out = append(out, staticObl(fmt.Sprintf("x/%s/import-restores#%s", m, k), "C20", "frame", okI, "x/"+m, srcI))
+		}
+	}
+	return out
+}
+
+// localInits finds the expressions assigned to a local variable in its declaring file.
+func (pr *Program) localInits(v *types.Var, info *types.Info) []ast.Expr {
+	if pr.localInitMemo == nil {
+		pr.localInitMemo = map[*types.Var][]ast.Expr{}
+		pr.visitingInit = map[ast.Expr]bool{}
+	}
+	if r, ok := pr.localInitMemo[v]; ok {
+		return r
+	}
+	var out []ast.Expr
+	for _, pi := range pr.Pkgs {
+		if pi.P.Types != v.Pkg() {
+			continue
+		}
+		for _, f := range pi.P.Syntax {
+			if v.Pos() < f.Pos() || v.Pos() > f.End() {
+				continue
+			}
+			ast.Inspect(f, func(n ast.Node) bool {
+				switch n := n.(type) {
+				case *ast.ValueSpec:
+					for i, nm := range n.Names {
+						if info.Defs[nm] == v && i < len(n.Values) {
+							out = append(out, n.Values[i])
+						}
+					}
+				case *ast.AssignStmt:
+					if len(n.Lhs) == len(n.Rhs) {
+						for i, l := range n.Lhs {
+							if id, ok := l.(*ast.Ident); ok && (info.Defs[id] == v || info.Uses[id] == v) {
+								out = append(out, n.Rhs[i])
+							}
+						}
+					}
+				}
+				return true
+			})
+		}
+	}
+	pr.localInitMemo[v] = out
+	return out
 }
